@@ -110,6 +110,15 @@ func (p *PortSet) Union(other *PortSet) {
 
 // ContainedIn: return true if current PortSet object is contained in input PortSet object
 func (p *PortSet) ContainedIn(other *PortSet) bool {
+	// a named port is contained in other only if other allows the same name, or allows all ports (without excluding that name)
+	for namedPort := range p.NamedPorts {
+		if other.NamedPorts[namedPort] {
+			continue
+		}
+		if other.ExcludedNamedPorts[namedPort] || !other.Ports.Equal(interval.New(minPort, maxPort).ToSet()) {
+			return false
+		}
+	}
 	return p.Ports.IsSubset(other.Ports)
 }
 
